@@ -184,3 +184,66 @@ func LowAreaRemap(r *rig.Rng) *Program {
 	h.B(rom[0x20*0x4000 : 0x21*0x4000])
 	return &Program{ROM: rom, Hash: h.Sum(), CartType: 0x01, Items: items, Seed: "low-area-remap"}
 }
+
+// DMAStream builds a program that keeps OAM DMA transfers in flight nearly all the time (a new
+// transfer every ~190 machine cycles, so that one is under way at almost every frame boundary),
+// from ROM pages filled with data of its own, with objects switched on; after each transfer it
+// folds a few OAM bytes into registers, HRAM and the serial port.
+func DMAStream(r *rig.Rng) *Program {
+	rom := rig.BlankROM(0, 0, 0)
+	for a := 0x1000; a < 0x4000; a++ {
+		rom[a] = r.U8()
+	}
+	pc := 0x150
+	emit := func(b ...byte) { copy(rom[pc:], b); pc += len(b) }
+	io := func(reg, v uint8) { emit(0x3e, v, 0xe0, reg) }
+	rig.Put(rom, 0x100, 0x00, 0xc3, 0x50, 0x01)
+	emit(0x31, 0xf0, 0xdf)
+	io(0x48, r.U8())
+	io(0x49, r.U8())
+	io(0x40, 0x93|r.U8()&0x04)
+	loop := pc
+	for k := 0; k < 24; k++ {
+		io(0x46, uint8(0x10+r.Intn(0x30)))
+		emit(0x06, uint8(42+r.Intn(8)), 0x05, 0x20, 0xfd)        // LD B,n; DEC B; JR NZ,-3: the transfer completes
+		emit(0xfa, uint8(r.Intn(160)), 0xfe, 0x81, 0x4f)         // LD A,(FExx); ADD A,C; LD C,A
+		emit(0xe0, uint8(0x80+r.Intn(0x40)), 0xe0, 0x01)         // LDH (80+),A; LDH (01),A
+		emit(0xfa, 0x9f, 0xfe, 0xea, uint8(r.Intn(0x100)), 0xc1) // LD A,(FE9F); LD (C1xx),A
+	}
+	emit(0xc3, uint8(loop), uint8(loop>>8))
+	h := rig.NewHasher()
+	h.B(rom[:0x4000])
+	return &Program{ROM: rom, Hash: h.Sum(), CartType: 0, Items: 24, Seed: "dma-stream"}
+}
+
+// BigROM builds a 4 MiB or 8 MiB MBC5 program (256 or 512 banks, every bank holding bytes of its
+// own) whose very first action is to map banks from the upper half of the image and read them:
+// what it reads goes to the serial port, into registers and into work RAM.
+func BigROM(r *rig.Rng) *Program {
+	size := uint8(7 + r.Intn(2))
+	rom := rig.BlankROM(0x19, size, 0)
+	banks := 2 << size
+	for b := 1; b < banks; b++ {
+		for k := 0; k < 64; k++ {
+			rom[b*0x4000+k] = uint8(rig.Hash(uint64(b), uint64(k)) | 1)
+		}
+	}
+	pc := 0x150
+	emit := func(b ...byte) { copy(rom[pc:], b); pc += len(b) }
+	rig.Put(rom, 0x100, 0x00, 0xc3, 0x50, 0x01)
+	loop := pc
+	for k := 0; k < 60; k++ {
+		b := banks/2 + r.Intn(banks/2)
+		if k%4 == 3 {
+			b = r.Intn(banks)
+		}
+		emit(0x3e, uint8(b), 0xea, 0x00, 0x20, 0x3e, uint8(b>>8), 0xea, 0x00, 0x30) // bank number, low and high part
+		emit(0xfa, uint8(r.Intn(64)), 0x40)                                         // LD A,(40xx)
+		emit(0xe0, 0x01, 0x80, 0x47, 0xea, uint8(k), 0xc0)                          // LDH (01),A; ADD A,B; LD B,A; LD (C0kk),A
+	}
+	emit(0xc3, uint8(loop), uint8(loop>>8))
+	h := rig.NewHasher()
+	h.B(rom[:0x4000])
+	h.U(uint64(size))
+	return &Program{ROM: rom, Hash: h.Sum(), CartType: 0x19, Items: 60, Seed: "big-rom"}
+}
